@@ -98,6 +98,12 @@ class RBFRegressor(BaseRegressor):
         This convention is chosen to avoid division by :math:`|x|` when
         the terms may be cancelled out, as :math:`f'(r)` often has a term
         in :math:`r`.
+
+        As in :class:`scipy.interpolate.Rbf`,
+        the linear, cubic, quintic and thin plate functions
+        do not depend on :math:`\epsilon`:
+        they are applied to :math:`r=|x|`
+        and their derivatives are :math:`df/dx = x/|x| f'(|x|)`.
         """
 
         TOL = finfo(float).eps
@@ -173,16 +179,13 @@ class RBFRegressor(BaseRegressor):
             Args:
                 input_data: The 1D input data.
                 norm_input_data: The norm of the input variable.
-                eps: The correlation length.
+                eps: The correlation length (unused, as in SciPy).
 
             Returns:
                 The derivative of the function.
             """
             return (
-                (norm_input_data > cls.TOL)
-                * input_data
-                / eps
-                / (norm_input_data + cls.TOL)
+                (norm_input_data > cls.TOL) * input_data / (norm_input_data + cls.TOL)
             )
 
         @classmethod
@@ -197,12 +200,12 @@ class RBFRegressor(BaseRegressor):
             Args:
                 input_data: The 1D input data.
                 norm_input_data: The norm of the input variable.
-                eps: The correlation length.
+                eps: The correlation length (unused, as in SciPy).
 
             Returns:
                 The derivative of the function.
             """
-            return 3 * norm_input_data * input_data / eps**3
+            return 3 * norm_input_data * input_data
 
         @classmethod
         def der_quintic(
@@ -216,12 +219,12 @@ class RBFRegressor(BaseRegressor):
             Args:
                 input_data: The 1D input data.
                 norm_input_data : The norm of the input variable.
-                eps: The correlation length.
+                eps: The correlation length (unused, as in SciPy).
 
             Returns:
                 The derivative of the function.
             """
-            return 5 * norm_input_data**3 * input_data / eps**5
+            return 5 * norm_input_data**3 * input_data
 
         @classmethod
         def der_thin_plate(
@@ -237,7 +240,7 @@ class RBFRegressor(BaseRegressor):
             Args:
                 input_data: The 1D input data.
                 norm_input_data: The norm of the input variable.
-                eps: The correlation length.
+                eps: The correlation length (unused, as in SciPy).
 
             Returns:
                 The derivative of the function.
@@ -245,8 +248,7 @@ class RBFRegressor(BaseRegressor):
             return (
                 (norm_input_data > cls.TOL)
                 * input_data
-                / eps**2
-                * (1 + 2 * log(norm_input_data / eps + cls.TOL))
+                * (1 + 2 * log(norm_input_data + cls.TOL))
             )
 
     def _fit(self, input_data: RealArray, output_data: RealArray) -> None:
